@@ -87,7 +87,7 @@ static void decode_spec(struct tape *t, struct gm_spec *g)
 	g->lookahead_mode = (uint8_t)t_choice(t, 3);
 	g->zero_delay = (uint8_t[]){0, 20, 60, 120}[t_choice(t, 4)];
 	g->send_prob = (uint8_t[]){110, 60, 150, 200}[t_choice(t, 4)];
-	g->dest_mode = (uint8_t)t_choice(t, 4);
+	g->dest_mode = (uint8_t)t_choice(t, 5);
 	g->payload_mode = (uint8_t)t_choice(t, 4);
 	g->n_rules = (uint8_t)(2 + t_choice(t, 7));
 	for(unsigned r = 0; r < g->n_rules; r++) {
@@ -129,6 +129,10 @@ static void decode_spec(struct tape *t, struct gm_spec *g)
 		} else
 			g->goal[i] = (uint16_t)(goal_base / 2 + t_choice(t, goal_base));
 	}
+	if(c07 && g->dest_mode == 4 && t_prob(t, 200)) {
+		g->goal[0] = 1;
+		g->t0_zero[0] = 1;
+	}
 	g->init_sends = (uint8_t)t_choice(t, 4);
 	g->init_bufs = (uint8_t)t_choice(t, 4);
 	g->stop_lp = -1;
@@ -169,6 +173,7 @@ static void decode_cfg(struct tape *t, struct rt_cfg *c, const struct gm_spec *g
 	                   : hs == 3 ? (1U << RSV_SITE_QUEUE_INSERT_CAS | 1U << RSV_SITE_QUEUE_SWAP | 1U << RSV_SITE_QUEUE_INSERT)
 	                             : 0;
 	c->sched.clock_div = (unsigned[]){4, 1, 16, 64}[t_choice(t, 4)];
+	c->sched.batch = (unsigned[]){0, 8, 1, 0, 3, 24, 0, 2}[t_choice(t, 8)];
 	c->sched.budget = 20000000ULL;
 	c->sched.noprogress = getenv("RSV_NOPROGRESS") ? strtoull(getenv("RSV_NOPROGRESS"), NULL, 10) : 600000ULL;
 	c->sched.free_perturb_per_1024 = (unsigned[]){0, 20, 200}[t_choice(t, 3)];
@@ -241,11 +246,11 @@ int rsv_case(const uint8_t *tape, size_t len, struct rsv_result *res)
 	    g->time_mode, g->lookahead_mode, g->zero_delay, g->send_prob, g->dest_mode, g->payload_mode, g->n_rules);
 	for(unsigned i = 0; i < g->n_lps && i < 12; i++)
 		rsv_sample(res, "%s%u%s", i ? "," : "", g->goal[i], g->t0_zero[i] ? "@0" : "");
-	rsv_sample(res, "] stop=(%d,%u) | %s thr=%u ckpt=%u gvt=%u tt=%g bind=%d stats=%d seed=%llu | sched seed=%llu sw=%u burst=%u/%u hot=%#x div=%u | ref ev=%zu",
+	rsv_sample(res, "] stop=(%d,%u) | %s thr=%u ckpt=%u gvt=%u tt=%g bind=%d stats=%d seed=%llu | sched seed=%llu sw=%u burst=%u/%u hot=%#x div=%u batch=%u | ref ev=%zu",
 	    g->stop_lp, g->stop_at, c->serial ? "serial" : c->mode == RSV_MODE_DET ? "DET" : "FREE", c->n_threads, c->ckpt_interval,
 	    c->gvt_period, c->termination_time, c->core_binding, c->stats, (unsigned long long)c->prng_seed,
 	    (unsigned long long)c->sched.seed, c->sched.switch_per_1024, c->sched.burst_per_64k, c->sched.burst_max, c->sched.hot_sites,
-	    c->sched.clock_div, RT.ref.total_events);
+	    c->sched.clock_div, c->sched.batch, RT.ref.total_events);
 
 	/* the real runtime */
 	memset(&gm_out, 0, sizeof gm_out);
